@@ -7,29 +7,52 @@ LEAN_MODULES = ['BemppVerif.Props.C06', 'BemppVerif.Gen.AsmMatch']
 LEAN_MODULES += shared.CTOR_MODULES
 N = "BemppVerif.C06."
 THEOREMS = []
-PARTIAL = {N + "curl_sum_zero": "the Maxwell electric-field decomposition and the complex symmetry of E and M (up to "
-           "singular-quadrature error) are oracle-only; the hypersingular decompositions (Laplace regular+singular, modified "
-           "Helmholtz and Helmholtz regular) are generated theorems about the traces of the real assemblers at one generic "
-           "configuration, the lift to all sizes is by the identical loop structure (dense_refines_spec)"}
+PARTIAL = {N + "curl_sum_zero": "generated theorems are about the traces of the real assemblers at one generic configuration (2-point "
+           "rules, three elements, symbolic geometry / weights / multipliers / wavenumber / kernel values); the lift to all sizes "
+           "is by the identical loop structure (dense_refines_spec).  Maxwell: proved are the closed forms of the traced electric- "
+           "and magnetic-field local integrals (regular and singular), the decomposition E = -ik sum_c R_c' V1 R_c - (1/ik) D' V0 D "
+           "of every traced local block (V0, V1 = traces of the real scalar assemblers under the same kernel stub), the scatter of "
+           "the blocks into the edge-numbered matrix and the complex symmetry of the regular E and M blocks.  Oracle-only remain: "
+           "the symmetry of the full E / M matrices up to singular-quadrature error, the sparse maps R_c, D as matrices on real "
+           "grids (the theorems use their local form), edge lengths as numbers (an edge length is an atom named by the vertex "
+           "pair the source subtracts; its value is only compared numerically), floating-point rounding"}
 TRUSTED = [
-    "Tie B: assembler tracing (vlib/asmtrace.py, props/asm_gen.py) and kernel tracing (props/kernels_gen.py): the generated "
-    "theorems are about terms recorded while running the undecorated source of the real functions",
+    "Tie B: assembler tracing (vlib/asmtrace.py, props/asm_gen.py, props/asm_gen_mx.py) and kernel tracing (props/kernels_gen.py): "
+    "the generated theorems are about terms recorded while running the undecorated source of the real functions; "
+    "numpy.linalg.norm / numpy.sqrt of registered vertex / point differences are recorded as atoms el_a_b / dst_x_y",
     "hand model Model/Asm.lean tied to the source by the generated AsmMatch theorems (symbolic, one generic configuration)",
     "classical analysis that is used but not formalised is named in PARTIAL",
     shared.CTOR_TRUSTED,
 ]
 ASSUMPTIONS = []
-RULE = 'correspondence: compiled assemblers vs their traces at random numeric configurations (Tie B validation); oracle: props/c06_oracle.py'
-LEVEL_TEXT = 'Lean 4 theorems generated from the traces of the real assemblers: every entry of the traced Laplace hypersingular regular assembler and every singular local integral equals curl_i.curl_j x the single-layer entry on the element-wise constant space; the modified Helmholtz and Helmholtz (complex k, real and imaginary part) hypersingular entries equal curl.curl V0 -/+ k^2 (n.n) V1; plus: surface curls sum to zero on every element (constants annihilated), jac_inv_trans gives the surface gradient.'
-LEVEL_NOTE = 'partial: Maxwell E/M statements oracle-only. Trusted: Lean kernel, tracers, generated statements (RHS assembled by props/asm_gen.py from the stated formula).'
+RULE = 'correspondence: compiled assemblers (scalar, hypersingular, Maxwell E/M regular + singular) vs their traces at random numeric configurations (Tie B validation, 1e-13 relative); oracle: props/c06_oracle.py'
+LEVEL_TEXT = ('Lean 4 theorems generated from the traces of the real assemblers: every entry of the traced Laplace hypersingular regular '
+              'assembler and every singular local integral equals curl_i.curl_j x the single-layer entry on the element-wise constant '
+              'space; the modified Helmholtz and Helmholtz (complex k, real and imaginary part) hypersingular entries equal '
+              'curl.curl V0 -/+ k^2 (n.n) V1; plus: surface curls sum to zero on every element, jac_inv_trans gives the surface gradient. '
+              'Maxwell (complex k, complex kernel stub, as pairs over any field): every traced local block of '
+              'maxwell_efield_regular_assembler and every local integral of maxwell_efield_singular equals '
+              '-ik sum_c R_c^T V1 R_c - (1/ik) D^T V0 D with V0 / V1 the TRACES of default_scalar_regular_kernel / '
+              'default_scalar_singular_kernel on the element-wise constant / linear spaces under the same stub (R_c: vertex values of '
+              'multiplier x edge length x Piola-mapped function, D: 2 x multiplier x edge length / integration element); the '
+              'edge-numbered traced matrix is the scatter of the local blocks; with a symmetric kernel stub (and symmetric distance) '
+              'the regular E and M blocks of (tau,sigma) are the transposes of those of (sigma,tau); the traced M blocks (regular and '
+              'singular) equal W (x-y).(psi_t x psi_s) G (ik d - 1)/d^2.')
+LEVEL_NOTE = ('partial: symmetry of E/M beyond the regular part (singular-quadrature error) and the assembled sparse maps are oracle-only. '
+              'The singular E-field statement needs ie != 0 and kr^2+ki^2 != 0; the regular ones need no hypothesis. '
+              'Trusted: Lean kernel, tracers, generated statements (RHS assembled by props/asm_gen.py / props/asm_gen_mx.py from the stated formula).')
 TECHNIQUE = 'Lean 4 proof (ring identities between traces of the real assemblers) + numerical oracle'
 
 
 def generate(ctx):
     info = dict(kernels=shared.gen_kernels()[0], asm=shared.gen_asm()[0])
     THEOREMS[:] = ([N + t for t in ("refGrad_sum_zero", "curl_sum_zero", "hyp_local_annihilates_constants", "curl_product_symmetric",
-                                    "jac_inv_trans_is_surface_gradient")]
-                   + shared.asm_theorems("hyp_regular", "hyp_singular", "hyp_modified", "hyp_helmholtz"))
+                                    "jac_inv_trans_is_surface_gradient", "cpToComplex_injective", "cpToComplex_ofK",
+                                    "cpToComplex_add", "cpToComplex_sub", "cpToComplex_neg", "cpToComplex_mul", "cpToComplex_div",
+                                    "cpToComplex_divK", "cpToComplex_ik")]
+                   + shared.MX_LEMMAS
+                   + shared.asm_theorems("hyp_regular", "hyp_singular", "hyp_modified", "hyp_helmholtz")
+                   + shared.mx_theorems("C06"))
     info.update(shared.gen_ctors()[0])
     THEOREMS.extend(shared.ctor_theorems('laplace_boundary', 'helmholtz_boundary', 'modified_boundary', 'maxwell_boundary')
                     + [t for t in shared.CTOR_SPEC if t.split('.')[-1] in ('hypersingular_uses_single_layer_kernel', 'maxwell_kernel_and_dimension')])
